@@ -1,9 +1,59 @@
 import PyamgV.Driver.Util
-/-! Driver ops of extension task E21 (op names prefixed `ext_`). -/
+import PyamgV.Model.C20Gallery
+import PyamgV.Model.C20Read
+import PyamgV.Model.ExtC20Spec
+/-! Driver ops of extension task E21 (property C20; op names prefixed `ext_c20_`): the proof-side readings
+`qform` / `rowdot` of the Poisson and Dirichlet elasticity models on a given vector, and the objects of the
+closed-form spectrum theorems (`chebUQ`, `tvecQ`, `eigQ`). -/
 namespace PyamgV.Drv.ExtE21
 open PyamgV PyamgV.Drv
 
+def showRatL (l : List Rat) : String := sh (l.map showRat)
+
+def vecOf (s : String) : Nat → Rat :=
+  let a := parseRats s
+  fun i => a.getD i 0
+
+def parseSpacing (s : String) : Option (Rat × Rat) :=
+  match listOf s with
+  | [a, b] => some (parseRat a, parseRat b)
+  | _ => none
+
 def handle : List String → Option String
+  | ["ext_c20_pq", grid, ty, xs, rows] =>
+    -- `qform` and the components `rowdot` (rows `rows`) of the Poisson model on the vector `xs`
+    let g := (listOf grid).map nat
+    some <| match PyamgV.C20.poisson g (ty = "FE") with
+      | none => "err"
+      | some T =>
+        let x := vecOf xs
+        showRat (PyamgV.C20.qform T x) ++ ";" ++ showRatL (((listOf rows).map nat).map fun p => PyamgV.C20.rowdot T x p)
+  | ["ext_c20_eig", grid, ty, cs, rows] =>
+    -- closed-form eigenpair: roots flag ; eigenvalue ; v = tvecQ grid (cs.map chebUQ) ; (A v)[rows] (model)
+    let g := (listOf grid).map nat
+    let c := (listOf cs).map parseRat
+    some <| match PyamgV.C20.poisson g (ty = "FE") with
+      | none => "err"
+      | some T =>
+        let n := g.foldl (· * ·) 1
+        let v := PyamgV.C20.tvecQ g (c.map PyamgV.C20.chebUQ)
+        let ok := g.length = c.length ∧ (List.zip g c).all fun (gi, ci) => PyamgV.C20.chebUQ ci gi = 0
+        (if ok then "1" else "0") ++ ";" ++ showRat (PyamgV.C20.eigQ (ty = "FE") c) ++ ";" ++
+          showRatL ((List.range n).map v) ++ ";" ++ showRatL (((listOf rows).map nat).map fun p => PyamgV.C20.rowdot T v p)
+  | ["ext_c20_cheb", n, c] =>
+    -- `U_0(c) .. U_n(c)` ; `A v` for the 1-D FD model, `v_j = U_j(c)`
+    let nn := nat n
+    let cc := parseRat c
+    some <| match PyamgV.C20.poisson [nn] false with
+      | none => "err"
+      | some T =>
+        showRatL ((List.range (nn + 1)).map (PyamgV.C20.chebUQ cc)) ++ ";" ++
+          showRatL ((List.range nn).map fun p => PyamgV.C20.rowdot T (PyamgV.C20.chebUQ cc) p)
+  | ["ext_c20_eq", x, y, spacing, e, nu, xs] =>
+    -- Dirichlet elasticity model: ndof ; `qform` on the vector `xs`
+    some <| match PyamgV.C20.q12d (nat x) (nat y) (parseSpacing spacing) (parseRat e) (parseRat nu) true with
+      | none => "err"
+      | some r => s!"{r.ndof};{showRat (PyamgV.C20.qform r.A (vecOf xs))}"
   | _ => none
 
 end PyamgV.Drv.ExtE21
